@@ -52,6 +52,8 @@ type scenario struct {
 	Trials  []execSpec     `json:"trials"`  // phase B: submitted after the delay elapsed
 	Release []int          `json:"release"` // order in which parked trials are completed
 	Rounds  int            `json:"rounds"`  // repeat phases A2/B this many times
+	// the OnOpen listener takes a while, and executions are submitted while it runs
+	SlowOpen bool `json:"slow_open"`
 }
 
 type execState struct {
@@ -72,21 +74,44 @@ type world struct {
 	meter   atomic.Int32
 	maxIn   atomic.Int32
 	fullBH  bulkhead.Bulkhead[int]
+	// slow OnOpen listener
+	slowOpen    chan struct{}
+	slowRelease chan struct{}
+	slowOnce    atomic.Bool
 }
 
-func newWorld(c cbmodel.Config) *world {
+func newWorld(c cbmodel.Config, slowOpen bool) *world {
 	w := &world{}
+	if slowOpen {
+		w.slowOpen, w.slowRelease = make(chan struct{}), make(chan struct{})
+	}
 	b := circuitbreaker.Builder[int]()
-	if c.Kind == 0 {
+	switch c.Kind {
+	case 0:
 		b.WithFailureThreshold(c.FT)
-	} else {
+	case 1:
 		b.WithFailureThresholdRatio(c.FT, c.FCap)
+	case 2:
+		b.WithFailureThresholdPeriod(c.FT, time.Duration(c.Period))
+	default:
+		b.WithFailureRateThreshold(c.FRate, c.FExec, time.Duration(c.Period))
 	}
 	if c.ST != 0 {
 		b.WithSuccessThresholdRatio(c.ST, c.SCap)
 	}
 	b.WithDelay(time.Duration(c.Delay))
-	b.OnOpen(func(circuitbreaker.StateChangedEvent) { w.openNow.Store(true) })
+	b.OnOpen(func(circuitbreaker.StateChangedEvent) {
+		w.openNow.Store(true)
+		// a listener that takes its time (once per scenario): the breaker is open from the moment the event is delivered,
+		// whatever else the opening goroutine still has to do
+		if w.slowOpen != nil && w.slowOnce.CompareAndSwap(false, true) {
+			close(w.slowOpen)
+			select {
+			case <-w.slowRelease:
+			case <-harness.After(5 * time.Second):
+			}
+		}
+	})
 	b.OnHalfOpen(func(circuitbreaker.StateChangedEvent) { w.openNow.Store(false) })
 	b.OnClose(func(circuitbreaker.StateChangedEvent) { w.openNow.Store(false) })
 	circuitbreaker.VerifWithClock[int](b, func() int64 { return w.now.Load() })
@@ -201,6 +226,7 @@ type runOut struct {
 	violation, sig, inconclusive string
 	racedOpen                    bool // the breaker opened while at least 2 executions were in flight
 	racedTrials                  bool // more than capacity executions raced for trial permits
+	slowOpenHit                  bool
 	paths                        map[string]bool
 }
 
@@ -220,10 +246,15 @@ func run(sc scenario) (out runOut) {
 		out.violation, out.sig = fmt.Sprintf(f, a...), sig
 		return out
 	}
-	w := newWorld(sc.CB)
+	w := newWorld(sc.CB, sc.SlowOpen)
 	mc := sc.CB
-	if mc.Kind == 0 {
+	switch mc.Kind {
+	case 0:
 		mc.FCap = mc.FT
+	case 2:
+		mc.FCap, mc.FExec = mc.FT, mc.FT
+	case 3:
+		mc.FT, mc.FCap = 1, 1
 	}
 	m := cbmodel.New(mc)
 
@@ -244,6 +275,25 @@ func run(sc scenario) (out runOut) {
 		}(sp)
 	}
 	close(start)
+	if sc.SlowOpen {
+		// while the OnOpen listener is still running, more executions arrive: the open event has been delivered, so they
+		// must be refused
+		select {
+		case <-w.slowOpen:
+			var late []*execState
+			for k := 0; k < 4; k++ {
+				late = append(late, w.submit(execSpec{Wrapper: "bare", Beh: "instant", Async: k%2 == 0}))
+			}
+			time.Sleep(300 * time.Microsecond)
+			close(w.slowRelease)
+			mu.Lock()
+			racers = append(racers, late...)
+			mu.Unlock()
+			out.slowOpenHit = true
+		case <-time.After(20 * time.Millisecond):
+			close(w.slowRelease) // the batch did not open the breaker
+		}
+	}
 	wg.Wait()
 	for i, st := range racers {
 		if !wait(st) {
@@ -295,6 +345,9 @@ func run(sc scenario) (out runOut) {
 		w.maxIn.Store(0)
 		var trials []*execState
 		hcap := int(mc.SCap)
+		if hcap == 0 {
+			hcap = int(mc.FExec)
+		}
 		if hcap == 0 {
 			hcap = int(mc.FCap)
 		}
@@ -485,19 +538,27 @@ func genSpec(t *rapid.T, parked bool) execSpec {
 
 func genScenario(t *rapid.T) scenario {
 	var c cbmodel.Config
-	c.Kind = rapid.IntRange(0, 1).Draw(t, "kind")
-	if c.Kind == 0 {
+	c.Kind = rapid.IntRange(0, 3).Draw(t, "kind")
+	switch c.Kind {
+	case 0:
 		c.FT = uint(rapid.IntRange(1, 4).Draw(t, "ft"))
-	} else {
+	case 1:
 		c.FCap = uint(rapid.IntRange(1, 6).Draw(t, "fcap"))
 		c.FT = uint(rapid.IntRange(1, int(c.FCap)).Draw(t, "ft"))
+	case 2:
+		c.FT = uint(rapid.IntRange(1, 4).Draw(t, "ft"))
+		c.Period = 1_000_000_000 // far longer than the scenario's clock jumps: every result is well inside the window
+	default:
+		c.FRate = uint(rapid.SampledFrom([]int{1, 34, 50, 67, 100}).Draw(t, "frate"))
+		c.FExec = uint(rapid.IntRange(1, 5).Draw(t, "fexec"))
+		c.Period = 1_000_000_000
 	}
 	if rapid.Bool().Draw(t, "succ") {
 		c.SCap = uint(rapid.IntRange(1, 5).Draw(t, "scap"))
 		c.ST = uint(rapid.IntRange(1, int(c.SCap)).Draw(t, "st"))
 	}
 	c.Delay = 1000
-	sc := scenario{CB: c, RaceB: rapid.Bool().Draw(t, "raceB"), Rounds: rapid.IntRange(1, 3).Draw(t, "rounds")}
+	sc := scenario{CB: c, RaceB: rapid.Bool().Draw(t, "raceB"), Rounds: rapid.IntRange(1, 3).Draw(t, "rounds"), SlowOpen: rapid.Bool().Draw(t, "slowOpen")}
 	maxG := 16
 	if harness.Thorough() {
 		maxG = 32
@@ -518,9 +579,13 @@ func genScenario(t *rapid.T) scenario {
 	}
 	hcap := int(c.SCap)
 	if hcap == 0 {
-		hcap = int(c.FCap)
-		if c.Kind == 0 {
+		switch c.Kind {
+		case 0, 2:
 			hcap = int(c.FT)
+		case 1:
+			hcap = int(c.FCap)
+		default:
+			hcap = int(c.FExec)
 		}
 	}
 	n := rapid.IntRange(1, 2*hcap+2).Draw(t, "trials")
@@ -553,7 +618,7 @@ func TestBreakerConcurrent(t *testing.T) {
 			harness.Violation(t, prop, test, o.sig, sc, "%s: %s", sc.CB, o.violation)
 		}
 		nt := o.racedOpen || o.racedTrials
-		classes := []string{fmt.Sprintf("raced-open=%v", o.racedOpen), fmt.Sprintf("raced-trials=%v", o.racedTrials)}
+		classes := []string{fmt.Sprintf("raced-open=%v", o.racedOpen), fmt.Sprintf("raced-trials=%v", o.racedTrials), fmt.Sprintf("slow-open-listener-hit=%v", o.slowOpenHit), fmt.Sprintf("kind=%d", sc.CB.Kind)}
 		for p := range o.paths {
 			classes = append(classes, "trial-end="+p)
 		}
